@@ -7,7 +7,7 @@
 EXTENDS Swarm
 CONSTANTS Has,        \* peer -> set of pieces it holds
           Leavers     \* peers that may disconnect at any time
-VARIABLES phase       \* per peer: 0 not connected, 1 connected, 2 handshake sent, 3 bitfield sent, 4 unchoked us, 5 gone
+VARIABLES phase       \* per peer: 0 not connected, 1 connected, 2 handshake sent, 3 bitfield sent, 4 unchoked us, 5 gone, 6 choked us again
 lvars == <<vars, phase>>
 LInit == Init /\ phase = [k \in Peers |-> 0]
 Adv(k, n) == phase' = [phase EXCEPT ![k] = n]
@@ -23,10 +23,13 @@ PServe(k) == phase[k] = 4 /\ h[k].alive /\ h[k].rx.p # None /\ h[k].rx.p \in Has
 PAgain(k) == /\ k \notin Leavers /\ phase[k] \in 1..4 /\ ~h[k].alive /\ k \notin Conn
              /\ \A i \in 1..Len(mq) : mq[i].k # k
              /\ Adv(k, 0) /\ UNCHANGED vars
-PLeave(k) == k \in Leavers /\ phase[k] \in 1..4 /\ h[k].alive /\ HEof(k) /\ Adv(k, 5)
+\* a peer that is going to leave may choke us first (the piece we were fetching from it is released at the Choke,
+\* the record of it only when the connection is gone)
+PChokeUs(k) == k \in Leavers /\ phase[k] = 4 /\ h[k].alive /\ HChoke(k) /\ Adv(k, 6)
+PLeave(k) == k \in Leavers /\ phase[k] \in {1, 2, 3, 4, 6} /\ h[k].alive /\ HEof(k) /\ Adv(k, 5)
 Client == \/ \E k \in Peers : HBroadHave(k) \/ HBroadState(k) \/ HBroadReleased(k) \/ (\E n \in Pipeline : HReply(k, n))
           \/ ManagerStep
-LStep == \/ \E k \in Peers : PConnect(k) \/ PHandshake(k) \/ PBitfield(k) \/ PUnchoke(k) \/ PServe(k) \/ PLeave(k) \/ PAgain(k)
+LStep == \/ \E k \in Peers : PConnect(k) \/ PHandshake(k) \/ PBitfield(k) \/ PUnchoke(k) \/ PServe(k) \/ PChokeUs(k) \/ PLeave(k) \/ PAgain(k)
          \/ (Client /\ UNCHANGED phase)
 LNext == LStep /\ due' = DueNext
 LSpec == /\ LInit /\ [][LNext]_lvars
